@@ -140,14 +140,14 @@ func runC02(r *sim.Run) {
 	nNames := t.Range(2, 4)
 	names := []string{"origin.example", "relay1.example", "relay2.example:8448", "xn--relay3.example"}
 	for i := 0; i < nNames; i++ {
-		s := world.NewServer(t, names[i], now)
+		s := world.NewCompactServer(t, names[i], now)
 		c.ents = append(c.ents, entity{name: names[i], kid: s.Keys[0].ID, key: s.Keys[0]})
 		if t.Intn(3) == 2 {
-			k := s.AddKey(t, now)
+			k := s.AddCompactKey(t, now)
 			c.ents = append(c.ents, entity{name: names[i], kid: k.ID, key: k})
 		}
 	}
-	sp := ed25519.NewKeyFromSeed(t.Bytes(32))
+	sp := world.NewCompactKey(t, "spare")
 	c.spare = sp.Public().(ed25519.PublicKey)
 	faultMode := t.Intn(3)
 
@@ -176,7 +176,7 @@ func runC02(r *sim.Run) {
 			if sigs[name] == nil {
 				sigs[name] = map[string]any{}
 			}
-			sigs[name].(map[string]any)[kid] = base64.RawStdEncoding.EncodeToString(t.Bytes(64))
+			sigs[name].(map[string]any)[kid] = base64.RawStdEncoding.EncodeToString(world.CompactBytes(t, "foreign", 64))
 			c.slots[slotKey{name, kid}] = &slot{how: "preexisting"}
 		}
 		obj["signatures"] = sigs
@@ -521,7 +521,7 @@ func (c *c02) corruptBytes(h int) {
 		nv = base64.RawStdEncoding.EncodeToString(raw[:len(raw)-n])
 		what = fmt.Sprintf("truncate-%d", n)
 	case 3: // extend
-		nv = base64.RawStdEncoding.EncodeToString(append(raw, t.Bytes(t.Range(1, 4))...))
+		nv = base64.RawStdEncoding.EncodeToString(append(raw, world.CompactBytes(t, "ext", t.Range(1, 4))...))
 		what = "extend"
 	default: // not base64 at all
 		nv = sim.Pick(t, []string{"!!not base64!!", "====", "é"})
